@@ -45,7 +45,13 @@ func HarnessC36() {
 	files := []*source.File{source.NewFile("a.proto", "abcd"), source.NewFile("b.proto", "abcd")}
 	keys := make([]zzDiagKey, n)
 	for i := range keys {
-		k := zzDiagKey{file: zz.Choice(2), tag: zz.Choice(3), msg: zz.Choice(2), level: 2 + zz.Choice(2), note: zz.Bool()}
+		var k zzDiagKey
+		if n == 3 {
+			// (three diagnostics: fewer concrete alternatives per diagnostic to keep the product in reach)
+			k = zzDiagKey{file: zz.Choice(2), tag: zz.Choice(2), msg: 0, level: 2 + zz.Choice(2), note: i == 0 && zz.Bool()}
+		} else {
+			k = zzDiagKey{file: zz.Choice(2), tag: zz.Choice(3), msg: zz.Choice(2), level: 2 + zz.Choice(2), note: zz.Bool()}
+		}
 		k.sortOrder = int(int8(zz.Byte()))
 		zz.Assume(zz.And(k.sortOrder >= -1, k.sortOrder <= 1))
 		k.start, k.end = int(zz.Byte()), int(zz.Byte())
